@@ -60,6 +60,10 @@ fn process_mesh_assets(
         let id: AssetId<Mesh> = AssetId::Uuid { uuid: id };
         meshes.insert(id, bin_to_mesh(&mesh));
     }
+    #[cfg(feature = "verif_hooks")]
+    for id in &applied {
+        crate::verif::log_registry(&sync.verif_log, 3, (class_of(&SyncAssetType::Mesh), *id), 0, false);
+    }
     drop(map);
     for id in applied {
         sync.download_applied(SyncAssetType::Mesh, &id);
@@ -83,6 +87,10 @@ fn process_image_assets(
         sync_tracker.push_network_handle_change(id);
         let id: AssetId<Image> = AssetId::Uuid { uuid: id };
         images.insert(id, img);
+    }
+    #[cfg(feature = "verif_hooks")]
+    for id in &applied {
+        crate::verif::log_registry(&sync.verif_log, 3, (class_of(&SyncAssetType::Image), *id), 0, false);
     }
     drop(map);
     for id in applied {
@@ -109,6 +117,10 @@ fn process_audio_assets(
                 bytes: audio.into(),
             },
         );
+    }
+    #[cfg(feature = "verif_hooks")]
+    for id in &applied {
+        crate::verif::log_registry(&sync.verif_log, 3, (class_of(&SyncAssetType::Audio), *id), 0, false);
     }
     drop(map);
     for id in applied {
@@ -154,7 +166,7 @@ pub(crate) struct SyncAssetTransfer {
     pending: PendingDownloads,
     max_transfer: usize,
     #[cfg(feature = "verif_hooks")]
-    verif_arrivals: Arc<Mutex<Vec<(u8, Uuid, u64, bool)>>>,
+    verif_log: crate::verif::RegistryLog,
 }
 
 impl SyncAssetTransfer {
@@ -191,7 +203,7 @@ impl SyncAssetTransfer {
             audios_to_apply,
             pending,
             #[cfg(feature = "verif_hooks")]
-            verif_arrivals: Arc::new(Mutex::new(Vec::new())),
+            verif_log: Arc::new(Mutex::new(Vec::new())),
         };
 
         let (server_tx, server_rx) = channel::<Request>();
@@ -235,10 +247,12 @@ impl SyncAssetTransfer {
             entry.url = url.clone();
             entry.requested += 1;
             request_number = entry.requested;
+            #[cfg(feature = "verif_hooks")]
+            crate::verif::log_registry(&self.verif_log, 0, key, request_number, false);
         }
         let pending = self.pending.clone();
         #[cfg(feature = "verif_hooks")]
-        let verif_arrivals = self.verif_arrivals.clone();
+        let verif_log = self.verif_log.clone();
         self.download_pool.execute(move || {
             if let Ok(response) = ureq::get(url.as_str()).call() {
                 let len = response
@@ -269,10 +283,9 @@ impl SyncAssetTransfer {
                         })
                         .unwrap_or(false);
                     #[cfg(feature = "verif_hooks")]
-                    verif_arrivals
-                        .lock()
-                        .unwrap()
-                        .push((key.0, key.1, request_number, outdated));
+                    if outdated {
+                        crate::verif::log_registry(&verif_log, 1, key, request_number, true);
+                    }
                     match asset_type {
                         _ if outdated => debug!("Dropping outdated download of {}", id),
                         SyncAssetType::Mesh => {
@@ -282,6 +295,8 @@ impl SyncAssetTransfer {
                                     Ok(mut map) => {
                                         debug!("Received mesh {} with size {}", id, len);
                                         map.insert(id, bytes);
+                                        #[cfg(feature = "verif_hooks")]
+                                        crate::verif::log_registry(&verif_log, 1, key, request_number, false);
                                         break;
                                     }
                                     Err(_) => lock = meshes_to_apply.write(),
@@ -296,6 +311,8 @@ impl SyncAssetTransfer {
                                     Ok(mut map) => {
                                         debug!("Received image {} with size {}", id, len);
                                         map.insert(id, bytes);
+                                        #[cfg(feature = "verif_hooks")]
+                                        crate::verif::log_registry(&verif_log, 1, key, request_number, false);
                                         break;
                                     }
                                     Err(_) => lock = images_to_apply.write(),
@@ -310,6 +327,8 @@ impl SyncAssetTransfer {
                                     Ok(mut map) => {
                                         debug!("Received audio {} with size {}", id, len);
                                         map.insert(id, bytes);
+                                        #[cfg(feature = "verif_hooks")]
+                                        crate::verif::log_registry(&verif_log, 1, key, request_number, false);
                                         break;
                                     }
                                     Err(_) => lock = audios_to_apply.write(),
@@ -332,9 +351,13 @@ impl SyncAssetTransfer {
                     _ => audios_to_apply.read().map(|m| m.contains_key(&id)),
                 }
                 .unwrap_or(false);
+                #[cfg(feature = "verif_hooks")]
+                let removed = !waiting && pending.get(&key).is_some_and(|entry| entry.under_way == 0);
                 if !waiting && pending.get(&key).is_some_and(|entry| entry.under_way == 0) {
                     pending.remove(&key);
                 }
+                #[cfg(feature = "verif_hooks")]
+                crate::verif::log_registry(&verif_log, 2, key, request_number, removed);
             }
         });
     }
@@ -350,9 +373,13 @@ impl SyncAssetTransfer {
         };
         if let Ok(mut pending) = self.pending.write() {
             let waiting = to_apply.read().map(|m| m.contains_key(id)).unwrap_or(false);
+            #[cfg(feature = "verif_hooks")]
+            let removed = !waiting && pending.get(&key).is_some_and(|entry| entry.under_way == 0);
             if !waiting && pending.get(&key).is_some_and(|entry| entry.under_way == 0) {
                 pending.remove(&key);
             }
+            #[cfg(feature = "verif_hooks")]
+            crate::verif::log_registry(&self.verif_log, 4, key, 0, removed);
         }
     }
 
@@ -581,7 +608,7 @@ impl SyncAssetTransfer {
                 v.sort();
                 v
             },
-            arrivals: self.verif_arrivals.lock().unwrap().clone(),
+            registry_log: self.verif_log.lock().unwrap().clone(),
         }
     }
 
